@@ -482,3 +482,80 @@ func VH_C15_LedgerBaseStorage() {
 	}
 	vhReach("ledger-adapter-done")
 }
+
+// Identifier arithmetic on fully symbolic bytes: raw-byte round trip, the
+// big-endian readings used for ordering, Compare as byte order, validity, the
+// temporary-address test, and identifier generation: SlabIndex.Next is +1 on
+// the big-endian value (carries across every byte), so consecutive generated
+// identifiers never repeat; the storages' generators hand out distinct, valid
+// identifiers with the requested owner (the persistent storage's own counter
+// for the temporary address).
+//
+//vh:prop C15 C09 C04
+//vh:mode bv
+func VH_C15_SlabIDUnits() {
+	var id, other SlabID
+	for b := 0; b < SlabAddressLength; b++ {
+		id.address[b] = vhU8("a")
+		other.address[b] = vhU8("oa")
+	}
+	for b := 0; b < SlabIndexLength; b++ {
+		id.index[b] = vhU8("x")
+		other.index[b] = vhU8("ox")
+	}
+	switch vhChoose("unit", 5) {
+	case 0: // raw bytes round trip
+		buf := make([]byte, SlabIDLength)
+		n, err := id.ToRawBytes(buf)
+		vhAssert(err == nil && n == SlabIDLength, "to raw bytes")
+		back, err := NewSlabIDFromRawBytes(buf)
+		vhAssert(err == nil && back == id, "raw bytes round trip")
+		_, err = id.ToRawBytes(make([]byte, SlabIDLength-1))
+		vhAssert(err != nil, "short buffer rejected")
+	case 1: // big-endian readings
+		wantA, wantI := uint64(0), uint64(0)
+		for b := 0; b < 8; b++ {
+			wantA = wantA<<8 | uint64(id.address[b])
+			wantI = wantI<<8 | uint64(id.index[b])
+		}
+		vhAssert(id.AddressAsUint64() == wantA, "address as big-endian integer")
+		vhAssert(id.IndexAsUint64() == wantI, "index as big-endian integer")
+		vhAssert(id.HasTempAddress() == (wantA == 0), "temporary address is the zero address")
+		vhAssert((id.Valid() == nil) == (wantI != 0), "valid iff the index is defined")
+	case 2: // Compare is the order of (address, index) as big-endian integers
+		c := id.Compare(other)
+		a1, a2 := id.AddressAsUint64(), other.AddressAsUint64()
+		i1, i2 := id.IndexAsUint64(), other.IndexAsUint64()
+		less := vhAny(a1 < a2, vhAll(a1 == a2, i1 < i2))
+		eq := vhAll(a1 == a2, i1 == i2)
+		vhAssert((c < 0) == less, "compare: less")
+		vhAssert((c == 0) == eq, "compare: equal")
+	case 3: // Next is +1 with carries
+		i := id.IndexAsUint64()
+		vhAssume(i != ^uint64(0))
+		n := id.index.Next()
+		got := uint64(0)
+		for b := 0; b < 8; b++ {
+			got = got<<8 | uint64(n[b])
+		}
+		vhAssert(got == i+1, "next index is the successor")
+	case 4: // generators: distinct, valid, right owner -- across a carry
+		st := vhNewBasicStorage()
+		addr := id.address
+		st.slabIndex[addr] = id.index
+		vhAssume(id.IndexAsUint64() < ^uint64(0)-2)
+		g1, e1 := st.GenerateSlabID(addr)
+		g2, e2 := st.GenerateSlabID(addr)
+		vhAssert(e1 == nil && e2 == nil, "generate")
+		vhAssert(g1 != g2 && g1.address == addr && g2.address == addr, "generated identifiers are distinct and carry the owner")
+		vhAssert(g1.Valid() == nil && g2.Valid() == nil, "generated identifiers are valid")
+		vhAssert(g1.IndexAsUint64() == id.IndexAsUint64()+1 && g2.IndexAsUint64() == id.IndexAsUint64()+2, "generated indexes count up")
+		ps := vhNewPersistent(newVBase())
+		ps.tempSlabIndex = id.IndexAsUint64()
+		t1, _ := ps.GenerateSlabID(AddressUndefined)
+		t2, _ := ps.GenerateSlabID(AddressUndefined)
+		vhAssert(t1 != t2 && t1.HasTempAddress() && t2.HasTempAddress(), "temporary identifiers are distinct")
+		vhAssert(t1.IndexAsUint64() == id.IndexAsUint64()+1 && t2.IndexAsUint64() == id.IndexAsUint64()+2, "temporary indexes count up")
+	}
+	vhReach("slabid-units-done")
+}
